@@ -30,7 +30,8 @@ class C18(Prop):
         "msaShuffle_spec", "permuteSeqOrder_spec", "bootstrap_only_input_columns",
         "cShuffleKmers_spec", "xShuffleKmers_spec", "iid_support", "iid_uniform",
         "cMarkov0_spec", "xMarkov0_spec", "cMarkov1_spec", "xMarkov1_spec",
-        "shuffleDP_partial", "cShuffleDP_partial", "xShuffleDP_partial", "dpWalk_edges_once",
+        "shuffleDP_ok", "cShuffleDP_ok", "xShuffleDP_ok", "dpWalk_edges_once",
+        "shuffleDP_checks_never_fire", "shuffleDP_spec", "cShuffleDP_status", "xShuffleDP_status",
         "vShuffle_spec", "qrna_keeps_classes", "qrna_class_perm")]
     claimed = True
     technique = ("Lean 4 proof (Fisher-Yates/swap-loop invariants, permutation and support theorems for every generator state) + "
